@@ -2388,7 +2388,7 @@ static int dense_find_pivot (
 	}
 	if (max_r == -1)
 	{
-		return E_NO_PIVOT;
+		{ EGLPNUM_TYPENAME_EGlpNumClearVar (maxval); return E_NO_PIVOT; }
 	}
 
 	EGLPNUM_TYPENAME_EGlpNumZero (maxval);
@@ -2399,7 +2399,7 @@ static int dense_find_pivot (
 	}
 	if (max_c == -1)
 	{
-		return E_NO_PIVOT;
+		{ EGLPNUM_TYPENAME_EGlpNumClearVar (maxval); return E_NO_PIVOT; }
 	}
 	*p_r = max_r;
 	*p_c = max_c;
